@@ -20,6 +20,7 @@ from harness import k1trace
 
 # bits of the code the Coq side returns for a trace (0 = everything agrees)
 B_ACCEPT, B_UNDO_INC, B_STORED, B_UNDO, B_STATE, B_SC1, B_SC2, B_MUNDO, B_MREDO, B_NOTHM, B_LAWS = 1, 2, 4, 8, 16, 32, 64, 128, 256, 512, 1024
+B_MUNDO_DATA, B_MREDO_DATA = 2048, 4096
 CODE_DEF = '''
 Definition b2z (b : bool) (k : Z) : Z := if b then 0 else k.
 Definition trace_code (tr : trace TT) : Z :=
@@ -157,6 +158,9 @@ def undo_redo_oracle(e, out, before, after, before_schema):
     kind = classify_restore_failure(out)
     if kind == 'undo-does-not-restore' and only_decoded_errors(d):
       kind = 'undo-does-not-restore:error-cell-decoded'
+    elif kind == 'undo-does-not-restore' and only_formula_cells_differ(e, before, u):
+      # schema, row ids and every data cell are restored; only recomputed (formula) cells differ
+      kind = 'undo-does-not-restore:formula-cells-only'
     res.append(('C01', kind, '; '.join(d[:6])))
   if G.engine_schema(e) != before_schema:
     res.append(('C01', 'undo-schema-differs', 'engine schema after undo differs'))
@@ -170,7 +174,12 @@ def undo_redo_oracle(e, out, before, after, before_schema):
     return res
   if G.canon(rd) != G.canon(after):
     d = strict_diff(after, rd, limit=12)
-    res.append(('C03', 'redo-differs:error-cell-decoded' if only_decoded_errors(d) else 'redo-differs', '; '.join(d[:6])))
+    kind = 'redo-differs'
+    if only_decoded_errors(d):
+      kind = 'redo-differs:error-cell-decoded'
+    elif only_formula_cells_differ(e, after, rd):
+      kind = 'redo-differs:formula-cells-only'
+    res.append(('C03', kind, '; '.join(d[:6])))
   return res
 
 
@@ -214,7 +223,8 @@ def replay_witness(w, prop, ctx=None):
     return d
   issues, _out = check_bundle(e, w['bundle'])
   for p, kind, what in issues:
-    if p == prop and kind in ('undo-does-not-restore', 'redo-differs') and ctx is not None and ':' in (w.get('kind') or ''):
+    if p == prop and kind in ('undo-does-not-restore', 'redo-differs', 'undo-does-not-restore:formula-cells-only',
+                              'redo-differs:formula-cells-only') and ctx is not None and (w.get('kind') or '').endswith(('after-undo', 'after-redo')):
       iss = {'kind': kind}
       refine_with_code(iss, code_of_bundle(ctx, w.get('history', []), w['bundle']))
       kind = iss['kind']
@@ -297,20 +307,21 @@ def shrink_history_issue(history, kind):
 
 
 def shrink_issue(history, bundle, prop, kind):
-  """Smaller (history, bundle) with the same failure kind."""
+  """Smaller (history, bundle) with the same failure kind (kind may be a tuple of acceptable kinds)."""
+  kinds = kind if isinstance(kind, tuple) else (kind,)
   def fails_h(h):
     try:
       issues, _ = check_bundle(build(h), copy.deepcopy(bundle))
     except Exception:
       return False
-    return any(p == prop and k == kind for p, k, _ in issues)
+    return any(p == prop and k in kinds for p, k, _ in issues)
   h = histgen.shrink_list(history, fails_h, max_steps=80) if len(history) > 1 and fails_h(history) else history
   def fails_b(b):
     try:
       issues, _ = check_bundle(build(h), copy.deepcopy(b))
     except Exception:
       return False
-    return any(p == prop and k == kind for p, k, _ in issues)
+    return any(p == prop and k in kinds for p, k, _ in issues)
   b = histgen.shrink_list(bundle, fails_b, max_steps=40) if len(bundle) > 1 else bundle
   return h, b
 
@@ -391,9 +402,9 @@ def refine_with_code(issue, code):
   some programs)."""
   if code is None or code & (B_ACCEPT | B_UNDO_INC | B_STORED | B_UNDO | B_STATE):
     return
-  if issue['kind'] == 'undo-does-not-restore' and not code & B_MUNDO:
+  if issue['kind'] in ('undo-does-not-restore', 'undo-does-not-restore:formula-cells-only') and not code & B_MUNDO:
     issue['kind'] = 'undo-does-not-restore:recalculation-after-undo'
-  if issue['kind'] == 'redo-differs' and not code & B_MREDO:
+  if issue['kind'] in ('redo-differs', 'redo-differs:formula-cells-only') and not code & B_MREDO:
     issue['kind'] = 'redo-differs:recalculation-after-redo'
 
 
